@@ -39,20 +39,31 @@ DIFF = [  # (criteria, brute-force key, how to read the LP result)
 
 
 def budget(tier):
-    return 1600 if tier == 'quick' else 28000
+    return 4000 if tier == 'quick' else 40000
 
 
 @st.composite
 def _cases(draw, tier):
     diff = pct(draw) < 12
     pc = pct(draw) < 35
-    shape = draw(st.sampled_from(['mix', 'mix', 'few_students_long_lists', 'only_empty']))
+    shape = draw(st.sampled_from(['mix', 'contention', 'contention', 'few_students_long_lists',
+                                  'only_empty']))
     sizes = dict(SIZES[tier])
     if shape == 'few_students_long_lists':
         sizes['n1'] = 2
-    inst = draw(strategies.instances(sizes))
-    if shape == 'few_students_long_lists':
-        pass
+    inst = draw(strategies.instances(sizes, min_len=2 if shape == 'contention' else 1))
+    if shape == 'contention':
+        # capacity-one projects fought over by several students with strict lists: maximum
+        # size, greedy and generous optima pull in different directions
+        inst['prefs'] = [[[x] for g in pl for x in g] for pl in inst['prefs']]
+        inst['puq'] = [1 if pct(draw) < 85 else 0 for _ in range(inst['n2'])]
+        inst['plq'] = [0] * inst['n2']
+        if inst['na'] == 2:
+            inst['luq'] = list(inst['puq'])
+            inst['lt'] = list(inst['puq'])
+            inst['llq'] = [0] * inst['n2']
+        else:
+            inst['llq'] = [0] * inst['n3']
     if shape == 'only_empty' and pct(draw) < 60:
         inst['puq'] = [0] * inst['n2']
         inst['plq'] = [0] * inst['n2']
